@@ -198,6 +198,9 @@ func (c *concClient) runScript() {
 					c.do("POST", mp("/confirm"), nil, map[string]string{"cnf": tok})
 				}
 			}
+		case "page":
+			// a form page (handlers that hand the responder no data of their own)
+			c.do("GET", mp(st.str("path")), nil, nil)
 		case "probe":
 			c.do("GET", st.str("path"), nil, nil)
 		case "drop_session":
@@ -277,6 +280,7 @@ func concScripts(r *Rng, c *Config, nClients int, tier string) []Step {
 		if c.hasModule("oauth2") {
 			pool = append(pool, "oauth2")
 		}
+		pool = append(pool, "page")
 		n := 2 + r.Intn(steps(tier, 5, 9))
 		acts = acts[:0]
 		recovers := 0
@@ -294,6 +298,21 @@ func concScripts(r *Rng, c *Config, nClients int, tier string) []Step {
 		for _, a := range acts {
 			st := Step{Kind: a, B: i}
 			switch a {
+			case "page":
+				pages := []string{"/login"}
+				if c.hasModule("register") {
+					pages = append(pages, "/register")
+				}
+				if c.hasModule("recover") {
+					pages = append(pages, "/recover")
+				}
+				if c.hasSetup("totp") {
+					pages = append(pages, "/2fa/totp/validate")
+				}
+				if c.hasSetup("sms") {
+					pages = append(pages, "/2fa/sms/validate")
+				}
+				st.Str = map[string]string{"path": pages[r.Intn(len(pages))]}
 			case "probe":
 				st.Str = map[string]string{"path": []string{"/probe/open", "/probe/mw/0/0/0/p", "/probe/mw/1/1/0/p"}[r.Intn(3)]}
 			case "recover_start":
